@@ -397,11 +397,11 @@ func plantEmptyKey(n *dm.Node, tr dm.Tree) {
 
 func c08Gen(t *rapid.T) c08Case {
 	o := dm.DefaultGen()
-	store := rapid.SampledFrom([]string{"rs", "rs", "reflect-map"}).Draw(t, "store")
+	store := rapid.SampledFrom([]string{"rs", "rs", "reflect-map", "json-reader"}).Draw(t, "store")
 	o.Types = []string{"int8", "int32", "int64", "uint16", "decimal64", "string", "boolean", "enumeration"}
 	o.KeyTypes = []string{"string", "string", "int32", "int64", "uint8", "boolean", "enumeration"}
 	o.ConfigFalse, o.Unions = true, false
-	if store != "rs" {
+	if store == "reflect-map" {
 		o.CompoundKeys = false
 		o.KeyTypes = []string{"string", "string", "int32"}
 		o.Types = []string{"int8", "int32", "int64", "uint16", "decimal64", "string", "boolean"}
